@@ -122,9 +122,15 @@ def gen(rng, idx, tier):
         case["active"] = _active(rng, side)
     nops = int(rng.integers(1, 13))
     same_n = _draw_n(rng) if rng.random() < 0.3 else None
+    # wide dynamic range (six decades) with a large exponent: every |x_i|^p is still representable (|p| * 3 <= 290), but
+    # intermediate quotients like (max/min)^|p| are not -- only for the p-norm, KS / soft-max would leave their |rho x| range
+    wide = agg == "pnorm" and rng.random() < 0.15
+    if wide:
+        case["param"] = sign * float(rng.choice([30.0, 60.0, 90.0]))
+        case["sc"] = 0
     for _ in range(nops):
         n = same_n if (same_n is not None and rng.random() < 0.7) else _draw_n(rng)
-        case["ops"].append(dict(n=n, dist=str(rng.choice(DISTS)), seed=int(rng.integers(1 << 30))))
+        case["ops"].append(dict(n=n, dist="wide" if wide else str(rng.choice(DISTS)), seed=int(rng.integers(1 << 30))))
     return case
 
 
@@ -223,6 +229,8 @@ def make_data(op, sc):
         u = (int(rng.integers(1, 9)) + rng.permutation(g)) / 8.0
     elif dist == "arange":
         u = rng.permutation(1.0 + np.arange(n)) * (4.0 / (n + 1))
+    elif dist == "wide":
+        return 10.0 ** rng.uniform(-2.8, 2.8, n)
     else:
         raise ValueError(dist)
     return np.asarray(u, dtype=float) * (2.0 ** sc)
@@ -336,7 +344,7 @@ def judge_mask(x, m, A, probe, skip):
 
 def in_range(agg, param, x):
     if agg == "pnorm":
-        return float(np.max(np.abs(param * np.log(x)))) <= 200.0
+        return float(np.max(np.abs(param * np.log(x)))) <= 600.0      # every |x_i|^p (and their sum) is representable
     return float(np.max(np.abs(param * x))) <= 200.0
 
 
